@@ -574,6 +574,13 @@ def routing_gen_text() -> str:
         "if domain_part is None: return self.server_name", "if self.map.host_matching: return domain_part",
         "if domain_part is None: subdomain = self.subdomain", "if subdomain: return f'{subdomain}.{self.server_name}'",
         "return self.server_name"])
+    # how an adapter gets its subdomain (the harness resolves these two rules when it encodes an adapter for the model)
+    mp = px.find_class(mapm, "Map")
+    _need(_method(mp, "bind"), "Map.bind", [
+        "server_name = server_name.lower()", "if subdomain is None: subdomain = self.default_subdomain"])
+    _need(_method(mp, "bind_to_environ"), "Map.bind_to_environ", [
+        "subdomain = '<invalid>'", "subdomain = '.'.join(filter(None, cur_server_name[:offset]))",
+        "if upgrade and env.get('HTTP_UPGRADE', '').lower() == 'websocket': scheme = 'wss' if scheme == 'https' else 'ws'"])
     _need(_method(ma, "__init__"), "MapAdapter.__init__", [
         "if not script_name.endswith('/'): script_name += '/'", "self.websocket = self.url_scheme in {'ws', 'wss'}"])
 
@@ -812,6 +819,16 @@ class Adapter:
     query: object = None            # None | str | tuple of pairs (mapping)
     environ: bool = False           # bound with Map.bind_to_environ(create_environ(...)) instead of Map.bind
     host_suffix: str = ""           # environ only: the scheme's own default port spelled out in the Host header (":80" / ":443")
+    default_sub: str | None = None  # Map.default_subdomain at bind time (used when subdomain is None)
+    mismatch: bool = False          # environ only: the configured server_name is not a suffix of the Host -> subdomain "<invalid>"
+
+    def eff_subdomain(self):
+        """the subdomain the adapter ends up with (Map.bind / Map.bind_to_environ; pinned in the translator)"""
+        if self.mismatch:
+            return "<invalid>"
+        if self.subdomain is None and self.default_sub is not None:
+            return self.default_sub
+        return self.subdomain
 
     def query_str(self) -> str:
         from werkzeug.urls import _urlencode
@@ -825,8 +842,8 @@ class Adapter:
         return self.script.rstrip("/") if self.environ else self.script
 
     def enc(self) -> str:
-        return "|".join([cps(self.scheme), cps(self.server), cps(self.eff_script()),
-                         "~" if self.subdomain is None else cps(self.subdomain), cps(self.query_str())])
+        return "|".join([cps(self.scheme), cps("other.invalid" if self.mismatch else self.server), cps(self.eff_script()),
+                         "~" if self.eff_subdomain() is None else cps(self.eff_subdomain()), cps(self.query_str())])
 
     def make_environ(self, path: str = "/", method: str = "GET"):
         from werkzeug.test import create_environ
@@ -838,10 +855,21 @@ class Adapter:
         q = self.query
         if isinstance(q, tuple):
             q = dict(q)
-        if self.environ:
-            # what a WSGI application does: the query string reaches the router through the environ
-            return m.bind_to_environ(self.make_environ(), server_name=self.server if self.subdomain is not None else None)
-        return m.bind(self.server, self.script, self.subdomain, self.scheme, query_args=q)
+        old_default = m.default_subdomain
+        if self.default_sub is not None:
+            m.default_subdomain = self.default_sub
+        try:
+            if self.mismatch:
+                import warnings
+                with warnings.catch_warnings():
+                    warnings.simplefilter("ignore")
+                    return m.bind_to_environ(self.make_environ(), server_name="other.invalid")
+            if self.environ:
+                # what a WSGI application does: the query string reaches the router through the environ
+                return m.bind_to_environ(self.make_environ(), server_name=self.server if self.subdomain is not None else None)
+            return m.bind(self.server, self.script, self.subdomain, self.scheme, query_args=q)
+        finally:
+            m.default_subdomain = old_default
 
 
 # ---------------------------------------------------------------- generators
@@ -1349,7 +1377,7 @@ CLAIM = dict(
     note="Trusted: Coq kernel; translator tools/c03.py; ExtrOcamlBasic extraction + driver; converter regex languages are hand-written "
          "predicates (regex texts pinned by Gen.v, validated differentially); float() and uuid.UUID() values are carried as text; list.sort "
          "stability modelled by insertion sort; rules outside the C03 grammar (several converters per segment, path converter before the last "
-         "segment, '//' in rules, duplicate variable names, redirect_to) are outside the model; C03_complete assumes merge_slashes set at map level.",
+         "segment, '//' in rules, duplicate variable names) are outside the model, redirect_to is modelled in C12; C03_complete assumes merge_slashes set at map level.",
     design="6/C03")
 
 SAFE = "!$&'()*+,/:;=@"
@@ -1361,7 +1389,7 @@ def expected_url(ad: Adapter, ms: MapSpec, new_path: str, domain: str | None = N
     if ms.host_matching:
         host = ad.server if domain is None else domain
     else:
-        sub = (ad.subdomain or "") if domain is None else domain
+        sub = (ad.eff_subdomain() or "") if domain is None else domain
         host = f"{sub}.{ad.server}" if sub else ad.server
     root = ad.script.strip("/")
     url = f"{ad.scheme or 'http'}://{host}/" + (root + "/" if root else "") + quote(new_path, safe=SAFE).lstrip("/")
@@ -1401,7 +1429,7 @@ def real_trie_text(m, by_obj) -> str:
 
 def domain_part(ms: MapSpec, ad: Adapter) -> str:
     if not ms.host_matching:
-        return ad.subdomain if ad.subdomain is not None else ""     # Map.bind: default_subdomain
+        return ad.eff_subdomain() if ad.eff_subdomain() is not None else ""     # Map.bind: default_subdomain
     return ad.server.lower()
 
 
